@@ -55,7 +55,10 @@ def plan(tier, seed):
 
 def gen_items(rng, maxn, kmax=6):
     items = []
-    for _ in range(rng.randint(1, kmax)):
+    if rng.random() < 0.02:
+        kmax = rng.choice([30, 66, 80])         # a very long list, rarely
+    for _ in range(rng.randint(max(1, kmax - 6), kmax) if kmax > 6
+                   else rng.randint(1, kmax)):
         k = rng.choice(['s', 's', 'a', 'd'])
         if k == 's':
             items.append(rng.randint(1, maxn))
